@@ -233,10 +233,18 @@ Definition right_at (pb : problem) (ev : list Z -> option (list Z)) (q : list Z)
   answer pb q (ev q).
 
 (* without big parameter: for every valuation of the context;
-   with big parameter at position b: for every valuation of the context whose b-th entry is
-   at least some threshold *)
+   with big parameter at position b: for every valuation, for all sufficiently large values of
+   the b-th entry (that keep the valuation in the context) *)
+Fixpoint set_nth (n : nat) (v : Z) (l : list Z) : list Z :=
+  match n, l with
+  | _, [] => []
+  | O, _ :: l' => v :: l'
+  | S n', x :: l' => x :: set_nth n' v l'
+  end.
+
 Definition tree_right (pb : problem) (ev : list Z -> option (list Z)) : Prop :=
   match big pb with
   | None => forall q, context pb q -> right_at pb ev q
-  | Some b => exists M0, forall q, context pb q -> M0 <= nth b q 0 -> right_at pb ev q
+  | Some b => forall q, exists M0, forall M, M0 <= M ->
+                context pb (set_nth b M q) -> right_at pb ev (set_nth b M q)
   end.
